@@ -122,7 +122,7 @@ def check_case(ctx, text, doc, cls, exotic_seed=None):
     from rt.jp_oracle import equivalent_envs
 
     ctx.evaluation()
-    case = {"text": text, "doc": doc, "class": cls} if cls != "surrogates" else {"kind": "surrogates"}
+    case = {"text": text, "doc": doc, "class": cls} if cls not in ("surrogates", "flags-history") else {"kind": cls}
     plain_doc = doc
     if exotic_seed is not None:
         # the same JSON value held in other Mapping/Sequence implementations and subclasses of str/int/float (keys too);
@@ -307,6 +307,28 @@ def run_surrogates(ctx):
             return
 
 
+def run_flags_history(ctx):
+    """Matches of members whose names contain %XX or backslash-u sequences, checked AFTER the same pointer texts were read
+    by differently configured pointer / patch calls in this process (URI decoding, escape decoding): the default
+    re-parse of a match's pointer text must not depend on what other calls did with the same text."""
+    import jsonpath
+    from rt import ref_pointer as rp
+
+    doc = {"menu": {"caf%C3%A9": "u1", "café": "u2", "100%25": {"x%2Fy": "u3", "x/y": "u4"}, "100%": "u5", "x%41": ["u6"], "xA": ["u7"]}, "a%20b": "u8", "a b": "u9", "items": [{"%7E": "u10", "~": "u11", "%2F": "u12", "/": "u13"}]}
+    ms = list(jsonpath.finditer("$..*", doc))
+    for order in (rp.FLAG_SETTINGS[1:], rp.FLAG_SETTINGS[:0:-1]):
+        for m in ms:
+            text = str(m.pointer())
+            for ue, ud in order:
+                impl.call(lambda: jsonpath.JSONPointer(text, unicode_escape=ue, uri_decode=ud).resolve(doc))
+                impl.call(lambda: jsonpath.pointer.resolve(text, doc, default=None, unicode_escape=ue, uri_decode=ud))
+                impl.call(lambda: jsonpath.JSONPatch(unicode_escape=ue, uri_decode=ud).test(text, 0))
+                impl.call(lambda: jsonpath.JSONPointer("/q").to("1" + text, unicode_escape=ue, uri_decode=ud))
+                ctx.count("pointer_texts_first_read_under_other_decoding_options")
+        for text in ("$..*", "$.menu.*", "$.items[0].*", "$..[0]"):
+            check_case(ctx, text, doc, "flags-history")
+
+
 def run_recursion_limit(ctx, limit):
     """Documents nested from half the interpreter's recursion limit up to beyond it (process default, and a lowered
     limit).  A refusal (RecursionError) is the interpreter's; every match that IS reported must carry the location of the
@@ -372,6 +394,7 @@ def run(spec, ctx):
                 check_case(ctx, text, v, "scale")
             ctx.cell("scale", "depth=%d" % depth)
         run_surrogates(ctx)
+        run_flags_history(ctx)
         ctx.count("H2_matches_checked", hooks.STATE.h2_checked)
         return
     r = ctx.rng
@@ -419,6 +442,9 @@ def replay(case, ctx):
         return
     if case.get("kind") == "surrogates":
         run_surrogates(ctx)
+        return
+    if case.get("kind") == "flags-history":
+        run_flags_history(ctx)
         return
     if case.get("kind") == "recursion-limit":
         run_recursion_limit(ctx, case.get("limit"))
